@@ -306,6 +306,9 @@ func (g *Gen) callWrites(li *loopInfo, ct *Contract, cc *ssa.CallCommon, addTarg
 				continue
 			}
 		}
+		if g.pathModifies(li, ct, cc, names, m, addRegion) {
+			continue
+		}
 		for i, n := range names {
 			if n == id && i < len(cc.Args) {
 				// "*p" / "p" with p a pointer or slice parameter: exactly the pointee / the elements
@@ -427,6 +430,7 @@ func (g *Gen) loopEntryEdges(li *loopInfo, edges []inEdge) {
 	li.headHeap = copyMap(g.heap)
 	li.headNextobj = g.nextobj
 	li.headGhost = copyMap(g.ghost)
+	g.stablePaths(li, false, pos)
 	// 3. assume invariants
 	env = g.loopEnv(li, phiHead)
 	for _, c := range li.spec.Inv {
@@ -473,6 +477,7 @@ func (g *Gen) backEdge(li *loopInfo, cond string, pos token.Pos) {
 	if cond != "true" {
 		g.reach = g.def("reach_back", "Bool", and(g.reach, cond))
 	}
+	g.stablePaths(li, true, pos)
 	env := g.loopEnv(li, phiVals)
 	env.goal = true
 	for _, c := range li.spec.Inv {
@@ -1591,4 +1596,102 @@ func (g *Gen) instFact(env *Env, as *AtStmt) {
 		entry.vars[bv.Name] = scalar(sortOfSpecName(bv.Sort), g.def("inst_"+bv.Name, sortOfSpecName(bv.Sort), v.S[0]), nil)
 	}
 	g.assume(g.specBool(entry, fd.C.E))
+}
+
+// stablePath: a modifies target of a callee reached through a path from its parameters (e.g. *(t.buff),
+// hcontent(t.state)) whose arguments are defined outside the loop. The path is evaluated once, in the state at
+// loop entry, and the loop carries the automatic invariant that the path still has that value (assumed at the
+// head, proved on every back edge), so the region named at entry is the region written in every iteration.
+type stablePath struct {
+	names []string
+	args  []*Val
+	pkg   *ssa.Package
+	inner *Expr
+	pre   *Val
+	text  string
+}
+
+func (g *Gen) calleeEnv(names []string, args []*Val, pkg *ssa.Package) *Env {
+	env := &Env{g: g, vars: map[string]*Val{}, heap: copyMap(g.heap), old: copyMap(g.heap), nextobj: g.nextobj, oldNextobj: g.nextobj,
+		ghost: copyMap(g.ghost), oldGhost: copyMap(g.ghost), pkg: pkg}
+	for i, n := range names {
+		if i < len(args) {
+			env.vars[n] = args[i]
+		}
+	}
+	return env
+}
+
+func (g *Gen) pathModifies(li *loopInfo, ct *Contract, cc *ssa.CallCommon, names []string, m *Clause, addRegion func(region)) bool {
+	var inner *Expr
+	switch {
+	case m.E.Op == "deref" && m.E.Args[0].Op == "sel":
+		inner = m.E.Args[0]
+	case m.E.Op == "call" && m.E.Args[0].Op == "id" && m.E.Args[0].Tok == "hcontent" && len(m.E.Args) == 2 && m.E.Args[1].Op == "sel":
+		inner = m.E.Args[1]
+	default:
+		return false
+	}
+	// the path may only consist of field selections from one parameter
+	for x := inner; ; x = x.Args[0] {
+		if x.Op == "id" {
+			break
+		}
+		if x.Op != "sel" {
+			return false
+		}
+	}
+	base := baseIdent(inner)
+	var pnames []string
+	var args []*Val
+	for i, n := range names {
+		if n != base {
+			continue
+		}
+		if i >= len(cc.Args) || !g.definedOutside(li, cc.Args[i]) {
+			return false
+		}
+		pnames = append(pnames, n)
+		args = append(args, g.val(cc.Args[i]))
+	}
+	if len(args) != 1 {
+		return false
+	}
+	names = pnames
+	pkg := g.eng.pkgOfKey(ct.Key)
+	env := g.calleeEnv(names, args, pkg)
+	pre := g.specVal(env, inner)
+	if pre == nil {
+		return false
+	}
+	regs := g.footprint(env, m.E)
+	if len(regs) == 0 {
+		return false
+	}
+	for _, r := range regs {
+		addRegion(r)
+	}
+	li.stable = append(li.stable, stablePath{names, args, pkg, inner, pre, m.Text})
+	return true
+}
+
+// stablePaths relates the current value of every stable path of the loop to its value at loop entry:
+// assumed at the loop head, proved on back edges.
+func (g *Gen) stablePaths(li *loopInfo, check bool, pos token.Pos) {
+	for _, sp := range li.stable {
+		env := g.calleeEnv(sp.names, sp.args, sp.pkg)
+		v := g.specVal(env, sp.inner)
+		if v == nil || len(v.S) != len(sp.pre.S) {
+			continue
+		}
+		var eqs []string
+		for i := range v.S {
+			eqs = append(eqs, fmt.Sprintf("(= %s %s)", v.S[i], sp.pre.S[i]))
+		}
+		if check {
+			g.oblige("inv.stable", and(eqs...), pos, "the loop leaves the path of the callee's modifies target unchanged: "+sp.text, nil)
+		} else {
+			g.assumeRaw(and(eqs...))
+		}
+	}
 }
